@@ -251,11 +251,11 @@ check(
     rule=("every request sequence of length <= 7 (quick, plus 2000 seeded length-8 ones) / <= 8 (thorough) over an alphabet of 6 lengths "
           "(16, 12, 45, 15, 43, 60|90: power of two, composites sharing prime sub-plans, prime > 41 whose Bluestein plan itself requests a "
           "power-of-two plan), separately for the complex (fft) and the real (rfft) cache, each history in a fresh thread: every result must "
-          "equal the result of the same call in a fresh thread (1e-12 rel.), plan objects taken during the history must still be right at "
+          "equal, bit for bit, the result of the same call in a fresh thread, plan objects taken during the history must still be right at "
           "its end, and after every request the hooked key list of both caches must equal a reference LRU of the configured capacity driven "
           "by the observed get/put trace (size <= K, requested length at the MRU position). LRUCache<int,int>(K=1..4): all put/get/exists "
           "sequences of length 5 (quick) / 6 (thorough) over 6 keys against the same reference. Random histories of 2000 / 10000 requests "
-          "over 40 lengths with up to 15 long-lived plans. Library builds with cache size 4 (default), 1 and 2; the random part also under "
+          "over 50 lengths (incl. composite families m | n such as 35/105/175, 91/273, 121/363, 85/425, 125/375) with up to 15 long-lived plans and derived calls (fft(x,n), rfft(x,n), FftFilter, xcorr, welch, hilbert(x,n), czt with an explicit start point, istft(stft)). Library builds with cache size 4 (default), 1 and 2; the random part also under "
           "ASan. non-trivial = history that evicts at least once; distinct = (cache kind, capacity, sequence code)."),
     exhaustive_subspaces={"quick": ["all histories of length <= 7 over 6 lengths, complex and real cache, capacities 1, 2 and 4", "all LRUCache op sequences of length 5 over 6 keys, K=1..4"],
                           "thorough": ["all histories of length <= 8 over 6 lengths, complex and real cache, capacities 1, 2 and 4", "all LRUCache op sequences of length 6 over 6 keys, K=1..4"]},
